@@ -382,7 +382,7 @@ Section WifStatements.
   Qed.
 
   Theorem wif_errors : forall s nvb e, wif_decode s nvb = Err e ->
-    e = ValueError \/ e = LibError Base58ChecksumError \/ (e = TypeError /\ length nvb <> 1%nat).
+    e = ValueError \/ e = LibError Base58ChecksumError.
   Proof. exact (Lemmas.Wif.wif_decode_err b58_alph_btc b58_radix b58_cklen sha256 valid_key wif_compr_suffix valid_len). Qed.
 End WifStatements.
 Print Assumptions wif_accepts_iff.
